@@ -204,7 +204,7 @@ def split_traces(path):
     return runs
 
 
-def validate_runs(spec, runs, shards=None, cfg=None, timeout=900, label="", env=None):
+def validate_runs(spec, runs, shards=None, cfg=None, timeout=900, label="", env=None, max_reject=25):
     """Validate a list of runs (each a list of ndjson lines) with TLC, sharded over
     the cores. Returns (rejected, stats): rejected = list of (run_index, event_index_in_run, raw lines);
     stats has generated/distinct state totals and events validated."""
@@ -246,7 +246,7 @@ def validate_runs(spec, runs, shards=None, cfg=None, timeout=900, label="", env=
             st["events"] += off
             rej.append((i, hwm - off, runs[i]))
             idxs = idxs[bad + 1:]
-            if len(rej) >= 25:
+            if len(rej) >= max_reject:
                 break
         return rej, st
 
